@@ -200,6 +200,7 @@ func genD(t *rapid.T) CaseD {
 		}
 		c.OverBy = body - c.Limit
 		c.OverType = rapid.SampledFrom([]byte{'Q', 'P', 'B', 'd', 'Y'}).Draw(t, "over-type")
+		c.Discarding = rapid.Bool().Draw(t, "while-discarding")
 	}
 	if rapid.IntRange(0, 3).Draw(t, "sub-minimum-lengths?") == 0 {
 		c.SubMin = rapid.SliceOfN(rapid.Uint32Range(0, 3), 1, 3).Draw(t, "sub-min")
